@@ -19,7 +19,9 @@ pub enum Fmt { NTriples, NQuads, Turtle, N3, RdfXml }
 #[derive(Serialize, Deserialize, Clone, Debug)]
 pub struct Doc { pub triples: Vec<(LT, u32, LT)>, pub seed: u64 }
 #[derive(Serialize, Deserialize, Clone, Debug)]
-pub struct LoadCase { pub hash_seed: u64, pub pool: usize, pub rayon_seed: u64, pub cpus: i64, pub shuttle_seed: u64, pub prior: Vec<(LT, u32, LT, Option<u32>)>, pub prior_terms: u32, pub doc: Doc, pub formats: Vec<Fmt>, pub twice: bool, pub comments: bool, #[serde(default)] pub n3_literals: bool, #[serde(default)] pub nq_graphs: bool, #[serde(default)] pub lists: bool, #[serde(default)] pub prior_prefix_clash: bool }
+pub struct LoadCase { pub hash_seed: u64, pub pool: usize, pub rayon_seed: u64, pub cpus: i64, pub shuttle_seed: u64, pub prior: Vec<(LT, u32, LT, Option<u32>)>, pub prior_terms: u32, pub doc: Doc, pub formats: Vec<Fmt>, pub twice: bool, pub comments: bool, #[serde(default)] pub n3_literals: bool, #[serde(default)] pub nq_graphs: bool, #[serde(default)] pub lists: bool, #[serde(default)] pub prior_prefix_clash: bool,
+    /// an older snapshot of the database's own dictionary is merged back (Dictionary::merge, a no-op for the stored data) before the load
+    #[serde(default)] pub merge_snapshot: bool }
 pub struct C13;
 
 /// escaped-literal families: backslash and quote in the middle, value ending in a backslash, value ending in a quote
@@ -144,7 +146,7 @@ pub fn load(db: &mut SparqlDatabase, fmt: &Fmt, text: &str, shuttle_seed: u64, c
 impl Prop for C13 {
     type Case = LoadCase;
     fn id(&self) -> &'static str { "C13" }
-    fn expected_counters(&self) -> Vec<&'static str> { vec!["fault.shuttle_scheduled_xml_workers", "probe.document_loaded_twice", "probe.document_spans_several_loader_chunks", "probe.load_into_populated_store", "probe.database_binds_the_documents_prefixes_differently", "probe.schema_property_elements", "fault.pool_split_into_several_jobs", "fault.jobs_run_out_of_index_order"] }
+    fn expected_counters(&self) -> Vec<&'static str> { vec!["fault.shuttle_scheduled_xml_workers", "probe.document_loaded_twice", "probe.document_spans_several_loader_chunks", "probe.load_into_populated_store", "probe.database_binds_the_documents_prefixes_differently", "probe.schema_property_elements", "probe.older_dictionary_snapshot_merged_before_load", "fault.pool_split_into_several_jobs", "fault.jobs_run_out_of_index_order"] }
     fn budget(&self, tier: Tier) -> Budget { match tier { Tier::Quick => Budget { runs: 4000, wall_s: 60, recheck: 20 }, Tier::Thorough => Budget { runs: 300_000, wall_s: 1000, recheck: 60 } } }
     fn hash_seed(&self, c: &LoadCase) -> u64 { c.hash_seed }
     fn gen(&self, seed: u64, _i: u64, _t: Tier) -> LoadCase {
@@ -163,7 +165,7 @@ impl Prop for C13 {
         let all = [Fmt::NTriples, Fmt::NQuads, Fmt::Turtle, Fmt::N3, Fmt::RdfXml];
         let formats: Vec<Fmt> = if n >= 8000 { vec![Fmt::RdfXml, r.pick(&all).clone()] } else if big { vec![r.pick(&all).clone(), r.pick(&all).clone()] } else { all.to_vec() };
         LoadCase { hash_seed: Rng::sub(seed, "hash").next(), pool: *cfg.pick(&[1, 2, 3, 4, 8, 16]), rayon_seed: Rng::sub(seed, "rayon").next(), cpus: 1 + cfg.below(16) as i64, shuttle_seed: Rng::sub(seed, "shuttle").next(),
-            prior, prior_terms: if prior_kind == 2 { r.below(40) as u32 } else { 0 }, doc: Doc { triples, seed: r.next() }, formats, twice: cfg.chance(1, 4), comments: cfg.chance(1, 2), n3_literals: cfg.chance(1, 10), nq_graphs: cfg.chance(1, 2), lists: cfg.chance(1, 3), prior_prefix_clash: cfg.chance(1, 3) }
+            prior, prior_terms: if prior_kind == 2 { r.below(40) as u32 } else { 0 }, doc: Doc { triples, seed: r.next() }, formats, twice: cfg.chance(1, 4), comments: cfg.chance(1, 2), n3_literals: cfg.chance(1, 10), nq_graphs: cfg.chance(1, 2), lists: cfg.chance(1, 3), prior_prefix_clash: cfg.chance(1, 3), merge_snapshot: cfg.chance(1, 4) }
     }
     fn exec(&self, c: &LoadCase, ctx: &mut Ctx) -> Option<Violation> {
         rayon::sim_configure(c.rayon_seed, c.pool);
@@ -176,10 +178,12 @@ impl Prop for C13 {
             let mut db = SparqlDatabase::new();
             // prior content: terms in the dictionary, quads in default and named graphs, a prefix
             for i in 0..c.prior_terms { db.encode_term_star(&format!("<http://e/pad{}>", i)); }
+            let snapshot = if c.merge_snapshot { Some(db.dictionary.read().unwrap().clone()) } else { None };
             db.prefixes.insert("old".into(), "http://old/".into());
             // the database may already bind the very prefixes the document declares, to other namespaces
             if c.prior_prefix_clash { for k in ["e", "z", "rdfs"] { db.prefixes.insert(k.into(), format!("http://old/{}/", k)); } ctx.hit("probe.database_binds_the_documents_prefixes_differently"); }
             for (s, p, o, g) in &c.prior { match g { None => { db.add_triple_parts(&canon(s), &pred(*p), &canon(o)); } Some(gn) => { db.add_quad_parts(&nt(s), &format!("<{}>", pred(*p)), &nt(o), &format!("http://e/g{}", gn)); } } }
+            if let Some(snap) = &snapshot { db.dictionary.write().unwrap().merge(snap); ctx.hit("probe.older_dictionary_snapshot_merged_before_load"); }
             let (before, graphs_before) = match lexical(&db) { Ok(x) => x, Err(e) => return fin(Some(Violation::new("dataset-undecodable", e))) };
             // N3 keeps the quotes of literals (a listed finding, see known_findings.json): outside the 1-in-10 runs that
             // stay in that region, the N3 rendering of the document has its literal objects replaced by IRIs so that chunking,
@@ -233,6 +237,7 @@ impl Prop for C13 {
         if c.nq_graphs { out.push(LoadCase { nq_graphs: false, ..c.clone() }); }
         if c.lists { out.push(LoadCase { lists: false, ..c.clone() }); }
         if c.prior_prefix_clash { out.push(LoadCase { prior_prefix_clash: false, ..c.clone() }); }
+        if c.merge_snapshot { out.push(LoadCase { merge_snapshot: false, ..c.clone() }); }
         if c.doc.triples.iter().any(|(_, p, _)| *p >= 100) { let t = c.doc.triples.iter().map(|(s, p, o)| (s.clone(), if *p >= 100 { *p - 100 } else { *p }, o.clone())).collect(); out.push(LoadCase { doc: Doc { triples: t, seed: c.doc.seed }, ..c.clone() }); }
         if c.pool != 1 { out.push(LoadCase { pool: 1, rayon_seed: 0, ..c.clone() }); }
         if c.cpus != 1 { out.push(LoadCase { cpus: 1, ..c.clone() }); }
